@@ -2,7 +2,7 @@
 P/fixpoint: `_tokenize` raises only ValueError subclasses for EVERY string (finite-state induction over the real loop body);
 B (checks/b03.py): token strings, grammar strings, corpus and corruptions against a reference reader and RDKit."""
 from vlib import env
-from checks.common import bounded_part, want, make_replay
+from checks.common import anchored, bounded_part, want, make_replay
 
 LEVEL = 'other'
 replay = make_replay('C03')
@@ -20,12 +20,14 @@ FINISH = dict(
 def main(run):
     env.setup()
     if want(run, 'P'):
+      with anchored(run, 'C03/P'):
         from contracts import tokenizer
         r = tokenizer.fixpoint()
         run.under_contract(tokenizer.FILE, '_tokenize', r['text'])
         if r['problems']:
-            for p in r['problems']:
-                run.oblig(f'_tokenize/dependency-check[{p}]', None, 'P', 'ast', 0.0)
+            # the abstraction's soundness argument does not cover this shape of the loop body: the fixpoint decides nothing (never a violation)
+            from vlib.env import Unanchored
+            raise Unanchored('tokenizer dependency check: ' + '; '.join(r['problems']))
         unsafe = {}
         for w, e, name in r['unsafe']:
             unsafe.setdefault(e, []).append(w)
